@@ -506,3 +506,261 @@ def rate_oracle(ops, out):
                         return "RTT estimate %r is not the 0.9/0.1 average %r" % (_f(cur["rtts"]), exp)
         prev = cur
     return None
+
+
+# ================================================================ endpoint mode (ep) oracles
+
+def ep_events(ops, out):
+    """[(tokens, info_lines, terminal)] for ep scripts (ops `seed` and `nonce` print nothing)."""
+    ev = []
+    i = 0
+    for op in ops:
+        t = op.split()
+        if not t or t[0] in ("seed", "nonce"):
+            continue
+        info, term = [], None
+        while i < len(out):
+            l = out[i]
+            i += 1
+            if l.startswith(("st ", "new ", "skipped", "PANIC", "HANG", "HARNESS")):
+                term = l
+                break
+            info.append(l)
+        ev.append((t, info, term))
+        if term is None:
+            break
+    return ev
+
+
+def ep_crash_oracle(ops, out):
+    for l in out:
+        if l.startswith(("PANIC", "HANG", "HARNESS")):
+            return "endpoint crashed or hung: %s" % l[:80]
+    return None
+
+
+def grammar_oracle(ops, out):
+    """C08: per connection: Connect? Receive* (Disconnect|Error)?; nothing after the end; a new Connect for an
+    address only after the previous connection's terminal event (or the application's own Server::drop)."""
+    phase = {}   # key -> 'idle' | 'connected'
+    for (t, info, term) in ep_events(ops, out):
+        who = None
+        if t[0].startswith("srv"):
+            who = "S"
+        elif t[0].startswith("cli"):
+            who = "C" + t[1]
+        if t[0] == "srvdrop":
+            phase[("S", t[1])] = "idle"
+        if t[0] == "clinew":
+            phase[("C" + t[1], "0")] = "idle"
+        for l in info:
+            if not l.startswith("ev "):
+                continue
+            p = l.split()
+            kind, addr = p[1], p[2]
+            key = (who, addr)
+            ph = phase.get(key, "idle")
+            if who and who.startswith("C") and ph == "ended":
+                return "client %s reported `%s` after its terminal event" % (who, l)
+            if kind == "connect":
+                if ph == "connected":
+                    return "%s: second Connect for address %s without a terminal event in between" % (who, addr)
+                phase[key] = "connected"
+            elif kind == "receive":
+                if ph != "connected":
+                    return "%s: Receive for address %s without a preceding Connect" % (who, addr)
+            elif kind == "disconnect":
+                if ph != "connected":
+                    return "%s: Disconnect for address %s without a preceding Connect" % (who, addr)
+                phase[key] = "ended" if who.startswith("C") else "idle"
+            elif kind == "error":
+                phase[key] = "ended" if who.startswith("C") else "idle"
+    return None
+
+
+_SRVST = re.compile(r"st clients=(\d+) active=(\d+) events=(\d+)(.*)")
+
+
+def limits_oracle(ops, out):
+    """C17: never more than max_active established (state A) nor more than max_total tracked connections."""
+    mt = ma = None
+    for (t, info, term) in ep_events(ops, out):
+        if t[0] == "srvnew":
+            mt, ma = int(t[1]), int(t[2])
+        if term and term.startswith("st clients="):
+            m = _SRVST.match(term)
+            if not m or mt is None:
+                continue
+            tracked = int(m.group(1))
+            established = len(re.findall(r"(?:^| )\d+=A", m.group(4)))
+            if tracked > mt:
+                return "server tracks %d connections, max_total_connections is %d" % (tracked, mt)
+            if established > ma:
+                return "server has %d established connections, max_active_connections is %d" % (established, ma)
+    return None
+
+
+def amplification_oracle(ops, out):
+    """C18: for an address that has not completed the handshake, bytes sent to it stay below bytes received from it."""
+    rx, tx, verified = {}, {}, set()
+    for (t, info, term) in ep_events(ops, out):
+        if t[0] in ("psend", "psendraw", "psendfix") and term and term.startswith("new sent"):
+            rx[t[1]] = rx.get(t[1], 0) + int(term.split()[2])
+        for l in info:
+            if l.startswith("ev connect") and t[0].startswith("srv"):
+                verified.add(l.split()[2])
+        if t[0] in ("precv", "pfwd"):
+            k = t[1]
+            for l in info:
+                if l.startswith("dgram S "):
+                    tx[k] = tx.get(k, 0) + int(l.split()[2])
+                elif l.startswith("dgram ") and t[0] == "pfwd":
+                    rx[k] = rx.get(k, 0) + int(l.split()[2])    # forwarded client datagrams arrive from this address
+            if k not in verified and tx.get(k, 0) > 0 and tx[k] >= rx.get(k, 0):
+                return "server sent %d bytes to unverified address %s from which it had received %d" % (tx[k], k, rx.get(k, 0))
+    return None
+
+
+def handshake_oracle(ops, out):
+    """C07 (observable part for raw peers): the server reports Connect for a raw peer only if that peer sent a
+    connection request and then an acknowledgement carrying one of the nonces the server could have generated."""
+    presets = set()
+    sent_syn, acked = {}, {}
+    has_client = set()
+    for (t, info, term) in ep_events(ops, out):
+        pass
+    for op in ops:
+        pass
+    ev = ep_events(ops, out)
+    opi = 0
+    presets = []
+    for op in ops:
+        t = op.split()
+        if t[0] == "nonce":
+            presets.append(int(t[1]))
+    seen_presets = []
+    pi = 0
+    evi = iter(ev)
+    pending_ops = [o.split() for o in ops if o.split() and o.split()[0] != "seed"]
+    cur = iter(ev)
+    state_syn, state_ack = {}, {}
+    for t in pending_ops:
+        if t[0] == "nonce":
+            seen_presets.append(int(t[1]))
+            continue
+        try:
+            (tt, info, term) = next(cur)
+        except StopIteration:
+            break
+        if t[0] == "clinew" and t[2] != "srv":
+            has_client.add(t[2])
+        if t[0] == "psend" and t[2] == "syn" and t[3] == "3":
+            state_syn[t[1]] = True
+        if t[0] == "psend" and t[2] == "hsack":
+            state_ack.setdefault(t[1], set()).add(int(t[3]))
+        if t[0] == "srvstep":
+            for l in info:
+                if l.startswith("ev connect "):
+                    k = l.split()[2]
+                    if k in has_client or int(k) >= 100:
+                        continue
+                    if not state_syn.get(k):
+                        return "server reported Connect for address %s which never sent a valid connection request" % k
+                    if not (state_ack.get(k, set()) & set(seen_presets)):
+                        return "server reported Connect for address %s which never returned a nonce the server generated" % k
+                    state_syn[k] = False
+                    state_ack[k] = set()
+    return None
+
+
+def target_addr(target, j):
+    tg = target.get(j)
+    if tg is None:
+        return None
+    return str(100 + int(j)) if tg == "srv" else tg
+
+
+def flush_order_oracle(ops, out):
+    """C09: every Reliable packet a client submitted before disconnect() is delivered to the server application
+    before the server reports Disconnect for that client (when the server did not initiate the disconnect)."""
+    ev = ep_events(ops, out)
+    sent = {}        # client j -> [(len, crc)] reliable, before its disconnect call
+    closed = {}      # client j -> bool disconnect() called
+    target = {}
+    srv_got = {}
+    srv_initiated = set()
+    for (t, info, term) in ev:
+        if t[0] == "clinew":
+            target[t[1]] = t[2]
+        if t[0] == "clisend" and t[3] == "3" and not closed.get(t[1]) and term and term.startswith("st sbs="):
+            ln, seed = int(t[4]), int(t[5])
+            sent.setdefault(t[1], []).append((ln, crc(payload(ln, seed))))
+        if t[0] == "clidisc":
+            if t[2] == "1":
+                srv_initiated.add(target_addr(target, t[1]))   # disconnect_now(): the application gave up flushing
+            else:
+                closed[t[1]] = True
+        if t[0] in ("srvdisc", "srvdrop"):
+            srv_initiated.add(t[1])
+        if t[0].startswith("srv"):
+            for l in info:
+                p = l.split()
+                if p[0] == "ev" and p[1] == "receive":
+                    srv_got.setdefault(p[2], set()).add((int(p[3]), int(p[4])))
+                if p[0] == "ev" and p[1] == "disconnect":
+                    addr = p[2]
+                    for j, tg in target.items():
+                        a = str(100 + int(j)) if tg == "srv" else tg
+                        if a == addr and closed.get(j) and addr not in srv_initiated:
+                            for pk in sent.get(j, []):
+                                if pk not in srv_got.get(addr, set()):
+                                    return "server reported Disconnect for client %s before delivering its Reliable packet (len %d)" % (j, pk[0])
+    return None
+
+
+def timeout_oracle(ops, out):
+    """C10 (client side, observable part): Error(Timeout) of an established client only if nothing was forwarded to
+    it during the preceding active_timeout_ms; a handshake times out only after >= 11 transmissions."""
+    ev = ep_events(ops, out)
+    ato, created, connected, last_rx, syn_count, peer_of = {}, {}, {}, {}, {}, {}
+    pending_fwd = {}
+    for (t, info, term) in ev:
+        if t[0] == "clinew":
+            j = t[1]
+            ato[j] = int(t[9]); created[j] = int(t[10]); connected[j] = None; syn_count[j] = 0
+            if t[2] != "srv":
+                peer_of[t[2]] = j
+        if t[0] == "pfwd":
+            k = t[1]
+            j = peer_of.get(k)
+            if j is not None:
+                fwd = term.split()[2] if term and term.startswith("new fwd") and len(term.split()) > 2 else ""
+                kinds_in = [l.split()[4] for l in info if l.startswith("dgram ")]
+                srcs = [l.split()[1] for l in info if l.startswith("dgram ")]
+                syn_count[j] += sum(1 for s_, kd in zip(srcs, kinds_in) if s_ != "S" and kd == "s")
+                # anything forwarded from the server towards the client will be handled at its next step
+                if any(s_ == "S" for s_ in srcs) and fwd:
+                    pending_fwd[j] = True
+        if t[0] == "psendc":
+            j = peer_of.get(t[1])
+            if j is not None:
+                pending_fwd[j] = True
+        if t[0] == "clistep":
+            j = t[1]
+            now = int(t[2])
+            for l in info:
+                if l == "ev connect 0":
+                    connected[j] = now
+                    last_rx[j] = now
+                if l == "ev error 0 timeout":
+                    if connected.get(j) is not None:
+                        # established: only after a full active_timeout of silence
+                        if not pending_fwd.get(j) and now - last_rx.get(j, 0) < ato[j]:
+                            return "client %s reported Timeout at %d ms although it handled a frame at %d ms (active_timeout %d)" % (j, now, last_rx[j], ato[j])
+                    else:
+                        if now - created[j] < 22000:
+                            return "client %s gave up the handshake after %d ms (< 22 s)" % (j, now - created[j])
+            if pending_fwd.get(j):
+                last_rx[j] = now
+                pending_fwd[j] = False
+    return None
